@@ -74,22 +74,22 @@ Proof. exact HeapHistory.c13_history_canonical. Qed.
 Print Assumptions c13_history_canonical.
 
 (* ---------------------------------------------------------------------------------------------- *)
-(* REGENERATED FROM THE SOURCE ON EVERY RUN (tools/gen -> Generated.g_code; Decisions.v): the decisions the model
+(* REGENERATED FROM THE SOURCE ON EVERY RUN (tools/gen -> Generated.g_code; DecBase.v, Dec*.v): the decisions the model
    takes at these points are the evaluations of the conditions the Go source has there, for all values of their
    variables. *)
-From GK Require Import GExpr Generated Decisions.
+From GK Require Import GExpr Generated DecBase DecTreap.
 From Coq Require Import String.
 
 (* treap.go union / join: the root is `this` iff its priority is strictly greater (ties go to `that`) *)
 Theorem c13_union_priority_is_source :
   exists c, decisions "Store.union" "thisItem.Priority" = [c] /\
             forall x y, gtrue (prio_env x y) c = Some (Z.gtb x y).
-Proof. exact Decisions.union_priority_decision. Qed.
+Proof. exact DecTreap.union_priority_decision. Qed.
 Print Assumptions c13_union_priority_is_source.
 Theorem c13_join_priority_is_source :
   exists c, decisions "Store.join" "thisItem.Priority" = [c] /\
             forall x y, gtrue (prio_env x y) c = Some (Z.gtb x y).
-Proof. exact Decisions.join_priority_decision. Qed.
+Proof. exact DecTreap.join_priority_decision. Qed.
 Print Assumptions c13_join_priority_is_source.
 
 (* every node union / split / join build carries numNodes = left + right + 1 and numBytes = left + right + the bytes of
@@ -105,12 +105,12 @@ Theorem c13_node_aggregates_are_source :
      let rho := upd (upd (upd (upd (upd env0 "leftNum" ln) "rightNum" rn) "leftBytes" lb) "rightBytes" rb) "x.NumBytes(t)" ib in
      geval rho (GBin "+" (GBin "+" (GVar "leftNum") (GVar "rightNum")) (GInt 1)) = Some (ln + rn + 1)%Z /\
      geval rho (GBin "+" (GBin "+" (GVar "leftBytes") (GVar "rightBytes")) (GCall "uint64" [GCall "x.NumBytes" [GVar "t"]])) = Some (lb + rb + ib)%Z).
-Proof. exact Decisions.node_aggregates_are_mk. Qed.
+Proof. exact DecTreap.node_aggregates_are_mk. Qed.
 Print Assumptions c13_node_aggregates_are_source.
 
 Theorem c13_new_node_is_source :
   agg_calls "Collection.SetItem" =
   [("t.mkNode", [GNil; GNil; GNil; GInt 1;
                  GBin "+" (GCall "uint64" [GCall "len" [GVar "item.Key"]]) (GCall "uint64" [GCall "item.NumValBytes" [GVar "t"]])])].
-Proof. exact Decisions.new_node_is_single. Qed.
+Proof. exact DecTreap.new_node_is_single. Qed.
 Print Assumptions c13_new_node_is_source.
